@@ -498,9 +498,11 @@ Print Assumptions C06_json_login_line.
    Covered Go regexps (what tools/go2v/regex.go:flatten admits after regexp/syntax Parse(Perl) + Simplify;
    everything else is emitted as UNSUPPORTED_<name>, which does not type-check): concatenations of literals
    (OpLiteral, no case folding), single-character classes (OpCharClass / OpAnyCharNotNL / OpAnyChar, a class
-   must hold all or none of the non-ASCII runes: classBytes) alone or under greedy * / + (x+ = IOne x; IStar x),
-   capture groups (OpCapture), ^ and $ as text anchors (OpBeginText / OpEndText).  Refused: alternation,
-   nested or counted repetition, non-greedy operators, ?, word boundaries, multi-line anchors, case folding.
+   must hold all or none of the non-ASCII runes: classBytes) alone or under greedy * / + (x+ = IOne x; IStar x;
+   a single such item over a class WITH the non-ASCII runes that is not the head of x+ is IRune x: one UTF-8
+   decoding step, go2v runeItems), capture groups (OpCapture), ^ and $ as text anchors (OpBeginText / OpEndText).
+   Refused: alternation, nested or counted repetition, non-greedy operators, ?, word boundaries, multi-line
+   anchors, case folding, and every pattern that is not rune-safe (go2v runeSafe; see C06_regex_rune_* below).
 
    Still assumed (trusted base), now exercised function by function on every run by stage harness/prims
    (Model/PrimsCheck.v): that Go's regexp implements this semantics for these patterns, and bytes vs runes
@@ -653,4 +655,67 @@ Proof.
     exists e, pcs. split; [apply Nat.leb_le; reflexivity|]. apply C06_regex_parse_with_sound; [apply Nat.leb_le; reflexivity|exact P]. }
   vm_compute. reflexivity.
 Qed.
+
+(* ---------- bytes and runes ----------
+   Go's regexp consumes RUNES (utf8.DecodeRuneInString steps; an invalid byte is U+FFFD, one byte), the items
+   ILit / IOne / IStar consume BYTES.  DESIGN.md section 3 said the two coincide for the generated patterns; the
+   function-level stage found that false for the two patterns ending in an unescaped dot
+   (reverseMappingCheckFailedRE, doesNotMapBackToAddrRE: a final multi-byte rune is ONE `.` for Go, the byte item
+   consumed one byte and `$` failed).  Repaired (group R): such an item is now IRune (below: on an ASCII byte it IS
+   IOne, so the theorems above are unchanged), and the condition under which byte-level stars and rune-level stars
+   stop at the same places is explicit, [rune_safe] (Model/RegexSpec.v), refused by go2v when violated and
+   re-checked here of the generated patterns:
+     - every class holds all or none of the bytes >= 0x80 ([classes_uniform]);
+     - a single BYTE item over a class with them is the head of x+ ([items_rune_safe]);
+     - a greedy star over such a class is followed, behind group marks, by an ASCII literal, a byte of an
+       ASCII-only class, $ or the pattern's end ([follow_ok]);
+     - the pattern is anchored or starts with an ASCII literal / ASCII-only class ([start_ok]).
+   Proved at byte level: the offset of an ASCII byte and the end of the text are rune boundaries of Go's decoding
+   loop in ANY byte string; hence such a star ends at a rune boundary in every parse, and IRune consumes exactly one
+   decoding step.  What remains assumed: that Go's regexp, on rune-safe patterns, is this semantics (exercised by
+   stage prims on multi-byte runes, invalid UTF-8 and NUL for all 20 patterns). *)
+Example C06_regex_all_patterns_rune_safe : forallb (fun p => rune_safe (snd p)) all_regexes = true.
+Proof. vm_compute. reflexivity. Qed.
+
+Example C06_regex_all_patterns_listed : map fst all_regexes = all_regex_names /\ length all_regexes = 20.
+Proof. vm_compute. split; reflexivity. Qed.
+
+Theorem C06_regex_rune_on_ascii : forall k r pos x s ops cs,
+  (N_of_ascii x <? 128)%N = true ->
+  m (IRune k :: r) pos (x :: s) ops cs = m (IOne k :: r) pos (x :: s) ops cs.
+Proof. exact m_rune_ascii. Qed.
+Print Assumptions C06_regex_rune_on_ascii.
+
+Theorem C06_regex_ascii_offset_is_boundary : forall T q,
+  q = length T \/ (exists c, nth_error T q = Some c /\ is_ascii c = true) -> Boundary T q.
+Proof. exact ascii_offset_is_boundary. Qed.
+Print Assumptions C06_regex_ascii_offset_is_boundary.
+
+Theorem C06_regex_star_ends_at_boundary : forall T k r p ops n ls e pcs,
+  Parse T (IStar k :: r) p ops (n :: ls) e pcs ->
+  follow_ok r = true -> classes_uniform r = true -> only_marks r = false -> Boundary T (p + n).
+Proof. exact star_ends_at_boundary. Qed.
+Print Assumptions C06_regex_star_ends_at_boundary.
+
+Theorem C06_regex_rune_item_is_one_step : forall T k r p ops ls e pcs,
+  Parse T (IRune k :: r) p ops ls e pcs -> Boundary T p ->
+  exists c, nth_error T p = Some c /\ in_cls k c = true /\
+            Boundary T (p + snd (Utf8.decode_rune (skipn p T))) /\
+            Parse T r (p + snd (Utf8.decode_rune (skipn p T))) ops ls e pcs.
+Proof. exact rune_item_is_one_step. Qed.
+Print Assumptions C06_regex_rune_item_is_one_step.
+
+(* the final dot of the reverse-mapping message is one rune: "é" (2 bytes), an invalid byte; not two runes *)
+Example C06_regex_example_final_rune :
+  let pre := s2l "reverse mapping checking getaddrinfo for a [b] failed" in
+  matches reverseMappingCheckFailedRE (pre ++ s2l ".")%list = true /\
+  matches reverseMappingCheckFailedRE (pre ++ hx "c3a9")%list = true /\
+  matches reverseMappingCheckFailedRE (pre ++ hx "f09f9880")%list = true /\
+  matches reverseMappingCheckFailedRE (pre ++ hx "ff")%list = true /\
+  matches reverseMappingCheckFailedRE (pre ++ hx "e282")%list = false /\
+  matches reverseMappingCheckFailedRE (pre ++ s2l "..")%list = false /\
+  matches reverseMappingCheckFailedRE pre = false /\
+  option_map (fun pm => (pm_end pm, pm_caps pm)) (find_parse reverseMappingCheckFailedRE (pre ++ hx "c3a9")%list)
+    = Some (55, [(1, (41, 42)); (2, (44, 45))]).
+Proof. vm_compute. repeat split; reflexivity. Qed.
 Close Scope string_scope.
